@@ -113,6 +113,9 @@ inductive Err where
 
 abbrev R := Except Err
 
+/-- a guard statement of the builder: `if c: raise err` -/
+def failIf (c : Bool) (err : Err) : R Unit := if c then .error err else pure ()
+
 def sdlErr {α} : R α := .error (.lib .sdl)
 def extErr {α} : R α := .error (.lib .ext)
 def schemaErr {α} : R α := .error (.lib .schema)
@@ -145,11 +148,15 @@ def specifiedDirectives : List String := ["include", "skip", "deprecated"]
 /-- what the builder can see while building definitions: the definitions of the document and the
     supplied (`additional_types`) live types, which take precedence (`_cache.update(additional_types)`) -/
 structure Env where
-  defs : List TypeDef
-  additional : List TypeD := []
+  /-- `_type_defs[name]` -/
+  findDef : String → Option TypeDef
+  /-- `additional_types` by name -/
+  findAdditional : String → Option TypeD
 
-def Env.findAdditional (e : Env) (n : String) : Option TypeD := e.additional.find? (·.name == n)
-def Env.findDef (e : Env) (n : String) : Option TypeDef := e.defs.find? (·.name == n)
+/-- the builder's view of a list of definitions and of supplied types: BY-NAME lookups only, so everything
+    built from an `Env` is independent of the order of the definitions -/
+def Env.of (defs : List TypeDef) (additional : List TypeD := []) : Env :=
+  { findDef := fun n => defs.find? (·.name == n), findAdditional := fun n => additional.find? (·.name == n) }
 
 /-- `build_type` on a named reference can resolve it -/
 def Env.resolves (e : Env) (n : String) : Bool :=
@@ -201,10 +208,10 @@ def lookupLast (fs : List (String × Lit)) (n : String) : Option Lit :=
 
 mutual
 /-- `value_from_ast(node, type_)` over the types visible in `env` (definitions as written, no extensions:
-    defaults are coerced while the definitions are built). `none` = InvalidValue/TypeError (→ SDLError);
-    fuel exhaustion = the real code's RecursionError. -/
-def valueFromAst (env : Env) : Nat → Lit → Ty → R (Option J)
-  | 0, _, _ => .error (.internal "RecursionError")
+    defaults are coerced while the definitions are built). inner `none` = InvalidValue/TypeError (→ SDLError);
+    outer `none` = fuel exhausted = the real code's RecursionError (the ONLY non-library outcome, by typing). -/
+def valueFromAst (env : Env) : Nat → Lit → Ty → Option (Option J)
+  | 0, _, _ => none
   | fuel+1, lit, ty =>
     match ty with
     | .nonNull t =>
@@ -258,8 +265,8 @@ def valueFromAst (env : Env) : Nat → Lit → Ty → R (Option J)
                 | _ => pure none
               | _ => pure none
 
-def coerceItems (env : Env) : Nat → List Lit → Ty → R (Option (List J))
-  | 0, _, _ => .error (.internal "RecursionError")
+def coerceItems (env : Env) : Nat → List Lit → Ty → Option (Option (List J))
+  | 0, _, _ => none
   | _, [], _ => pure (some [])
   | fuel+1, x :: xs, t => do
     let v ← valueFromAst env fuel x t
@@ -268,8 +275,8 @@ def coerceItems (env : Env) : Nat → List Lit → Ty → R (Option (List J))
 
 /-- `_extract_input_object` against an input type DEFINED in the document: a missing field takes the
     field's own default, i.e. the coercion of its default literal -/
-def coerceDefFields (env : Env) : Nat → List (String × Lit) → List InputValDef → R (Option J)
-  | 0, _, _ => .error (.internal "RecursionError")
+def coerceDefFields (env : Env) : Nat → List (String × Lit) → List InputValDef → Option (Option J)
+  | 0, _, _ => none
   | _, _, [] => pure (some (.obj []))
   | fuel+1, given, f :: fs => do
     let rest ← coerceDefFields env fuel given fs
@@ -286,8 +293,8 @@ def coerceDefFields (env : Env) : Nat → List (String × Lit) → List InputVal
       | _, _ => none)
 
 /-- the same against a SUPPLIED input type (defaults are already values) -/
-def coerceLiveFields (env : Env) : Nat → List (String × Lit) → List ArgD → R (Option J)
-  | 0, _, _ => .error (.internal "RecursionError")
+def coerceLiveFields (env : Env) : Nat → List (String × Lit) → List ArgD → Option (Option J)
+  | 0, _, _ => none
   | _, _, [] => pure (some (.obj []))
   | fuel+1, given, f :: fs => do
     let rest ← coerceLiveFields env fuel given fs
@@ -304,10 +311,11 @@ end
 def coerceFuel : Nat := 200
 
 /-- `_default_value` of the fixed builder: InvalidValue/TypeError → SDLError -/
-def defaultValue (env : Env) (lit : Lit) (ty : Ty) : R J := do
-  match ← valueFromAst env coerceFuel lit ty with
-  | some v => pure v
-  | none => sdlErr
+def defaultValue (env : Env) (lit : Lit) (ty : Ty) : R J :=
+  match valueFromAst env coerceFuel lit ty with
+  | none => .error (.internal "RecursionError")
+  | some (some v) => pure v
+  | some none => sdlErr
 
 /-! ### `_deprecation_reason` -/
 
@@ -347,7 +355,7 @@ def buildField (env : Env) (f : FieldDef) : R FieldD := do
 def reservedEnumNames : List String := ["true", "false", "null"]
 
 def buildEnumValue (v : EnumValDef) : R EnumValD := do
-  if reservedEnumNames.contains v.name then sdlErr
+  failIf (reservedEnumNames.contains v.name) (.lib .sdl)
   let r ← deprecationReason v.dirs
   pure { name := v.name, value := .str v.name, deprecated := r, desc := v.desc }
 
@@ -374,7 +382,7 @@ def buildTypeDef (env : Env) (d : TypeDef) : R TypeD := do
     checkNames env d.members
     pure { kind := .union, name := d.name, desc := d.desc, members := d.members }
   | .enum => do
-    if hasDup (d.values.map (·.name)) then sdlErr     -- fix C11-S1 (was a bare ValueError)
+    failIf (hasDup (d.values.map (·.name))) (.lib .sdl)     -- fix C11-S1 (was a bare ValueError)
     let vs ← d.values.mapM buildEnumValue
     pure { kind := .enum, name := d.name, desc := d.desc, values := vs }
   | .input => do
@@ -463,9 +471,9 @@ def thunkReach (env : Env) (target : String) : Nat → String → Bool
     | some d => (thunkEdges env d).any fun m => m == target || thunkReach env target fuel m
 
 /-- some input type's field thunk re-enters itself: the real builder overflows the stack -/
-def hasThunkCycle (env : Env) : Bool :=
-  env.defs.any fun d => d.kind == .input && (env.findAdditional d.name).isNone && !isDefaultName d.name
-                         && thunkReach env d.name env.defs.length d.name
+def hasThunkCycle (env : Env) (defs : List TypeDef) : Bool :=
+  defs.any fun d => d.kind == .input && (env.findAdditional d.name).isNone && !isDefaultName d.name
+                         && thunkReach env d.name defs.length d.name
 
 /-! ### roots -/
 
@@ -473,7 +481,7 @@ structure Roots where
   query : Option String := none
   mutation : Option String := none
   subscription : Option String := none
-  deriving Repr, Inhabited, BEq
+  deriving Repr, Inhabited, BEq, DecidableEq
 
 def Roots.get (r : Roots) : String → Option String
   | "query" => r.query | "mutation" => r.mutation | "subscription" => r.subscription | _ => none
@@ -508,29 +516,36 @@ structure Live where
 
 /-- supplied types that are referenced but not defined are registered through the closure of
     `_build_type_map` (supplied types are assumed closed under references) -/
-def referencedAdditional (env : Env) (types : List TypeD) (dirs : List DirectiveD) (roots : Roots) : List TypeD :=
+def referencedAdditional (additional : List TypeD) (types : List TypeD) (dirs : List DirectiveD) (roots : Roots) : List TypeD :=
   let names := types.flatMap (fun t => t.interfaces ++ t.members ++ t.fields.flatMap (fun f => f.type.base :: f.args.map (·.type.base))
                  ++ t.inputFields.map (·.type.base))
                ++ dirs.flatMap (fun d => d.args.map (·.type.base))
                ++ [roots.query, roots.mutation, roots.subscription].filterMap id
-  env.additional.filter fun a => !types.any (·.name == a.name) && names.contains a.name
+  additional.filter fun a => !types.any (·.name == a.name) && names.contains a.name
 
-def buildIgnoringExtensions (doc : Doc) (additional : List TypeD) : R (Env × Live) := do
-  let c ← collectDefinitions doc
-  let env : Env := { defs := c.types, additional := additional }
-  if hasThunkCycle env then .error (.internal "RecursionError")     -- finding S1b
+/-- root operation types: the `schema` block, else the default names -/
+def buildRoots (env : Env) (sd : Option SchemaDef) (types : List TypeD) : R Roots :=
+  match sd with
+  | none => pure (defaultRoots types)
+  | some sd => addOps env.resolves (.lib .sdl) {} sd.ops
+
+/-- the part of `build_schema_ignoring_extensions` after `_collect_definitions` -/
+def buildCollected (c : Collected) (additional : List TypeD) : R (Env × Live) := do
+  let env : Env := Env.of c.types additional
+  failIf (hasThunkCycle env c.types) (.internal "RecursionError")     -- finding S1b
   let dirs ← c.directives.mapM (buildDirective env)
   let built ← c.types.mapM (buildType env)
   let types := built.filterMap id
-  if hasEagerCycle types then sdlErr                 -- circular-reference guard of build_type
-  let roots ←
-    match c.schemaDef with
-    | none => pure (defaultRoots types)
-    | some sd => addOps env.resolves (.lib .sdl) {} sd.ops
+  failIf (hasEagerCycle types) (.lib .sdl)                 -- circular-reference guard of build_type
+  let roots ← buildRoots env c.schemaDef types
   -- `_build_directive_map`: a user directive may not take the name of a specified one
-  if dirs.any (fun d => specifiedDirectives.contains d.name) then schemaErr
-  let extra := referencedAdditional env types dirs roots
+  failIf (dirs.any (fun d => specifiedDirectives.contains d.name)) (.lib .schema)
+  let extra := referencedAdditional additional types dirs roots
   pure (env, { types := types ++ extra, directives := dirs, roots := roots })
+
+def buildIgnoringExtensions (doc : Doc) (additional : List TypeD) : R (Env × Live) := do
+  let c ← collectDefinitions doc
+  buildCollected c additional
 
 /-! ### `_collect_extensions` (strict = False) and `ASTTypeBuilder.extend_*` -/
 
@@ -552,7 +567,7 @@ def appendNew {α} (errE : Err) (name : α → String) (acc : List α) : List α
     document order; new members are built against the types visible BEFORE extension -/
 def extendType (env : Env) (exts : List TypeDef) (t : TypeD) : R TypeD := do
   let mine := exts.filter (·.name == t.name)
-  if mine.any (fun e => e.kind != t.kind) then extErr
+  failIf (mine.any (fun e => e.kind != t.kind)) (.lib .ext)
   match t.kind with
   | .scalar => pure t
   | .object => do
@@ -593,7 +608,7 @@ def extendSchema (env : Env) (live : Live) (doc : Doc) : R Live := do
     -- the new builder sees the built types (`additional_types = {**schema.types, …}`): by name these are
     -- the definitions and the supplied types again, i.e. `env`
     let types ← live.types.mapM (extendType env texts)
-    if hasEagerCycle types then sdlErr               -- circular-reference guard of extend_type
+    failIf (hasEagerCycle types) (.lib .sdl)               -- circular-reference guard of extend_type
     let roots ← sexts.foldlM (fun r se => addOps (fun n => isDefaultName n || types.any (·.name == n)) (.lib .ext) r se.ops) live.roots
     pure { live with types := types, roots := roots }
 
